@@ -45,7 +45,11 @@ class SciPySolver:
         return self.solve(A, b)
 
     def clear(self):
-        pass
+        """
+        Remove the cached factorization, which is a C object that cannot be serialized.
+        """
+        self.lu = None
+        self.factorize = True
 
 
 class SpSolve(SciPySolver):
